@@ -222,7 +222,14 @@ where
                     }
                     let lo = n * c as u64 / chunks as u64;
                     let hi = n * (c as u64 + 1) / chunks as u64;
-                    if let Err((case, failure)) = f(lo, hi, &mut st) {
+                    let verdict = match catch(|| f(lo, hi, &mut st)) {
+                        Ok(v) => v,
+                        Err(msg) => Err((
+                            serde_json::json!({"chunk": [lo, hi]}),
+                            Failure::new("panic", 0, format!("evaluating the chunk [{}, {}) panicked (overflow checks and debug assertions are on): {}", lo, hi, msg)),
+                        )),
+                    };
+                    if let Err((case, failure)) = verdict {
                         stop.store(true, Ordering::Relaxed);
                         found = Some((
                             c,
